@@ -39,7 +39,8 @@ def case_split(draw, tier):
         nd = draw(st.sampled_from([None, None, 1, 2, 3]))
         if nd:
             el['dim'] = nd
-    return dict(mesh=desc, elem=el, basis=draw(st.sampled_from(['cell', 'cell', 'bnd'])), seed=draw(st.integers(0, 10**6)))
+    return dict(mesh=desc, elem=el, basis=draw(st.sampled_from(['cell', 'cell', 'bnd', 'cellsub', 'facetsub', 'interior0', 'interior1'])),
+                seed=draw(st.integers(0, 10**6)), picks=draw(st.lists(st.integers(0, 10**4), min_size=1, max_size=5)))
 
 
 def fields_of(f):
@@ -59,11 +60,28 @@ def body_split(c, ctx):
     kind = gm.mesh_kind(desc)
     m = build_mesh(desc)
     eld = c['elem']
-    if c['basis'] == 'bnd' and (not facet_supported(kind, eld) or kind == 'line'):
+    if c['basis'] not in ('cell', 'cellsub') and (not facet_supported(kind, eld) or kind == 'line'):
         raise Unsupported('facet basis unsupported')
     e = build_element(eld)
-    B = CellBasis if c['basis'] == 'cell' else FacetBasis
     io = 3
+    # the basis to be split may live on a subset of cells / facets or on one side of the interior facets: its component bases
+    # (the ones split() hands out, and the ones built here for comparison) live on the same entities
+    from skfem import InteriorFacetBasis
+    picks = c.get('picks') or [0]
+    bkind = c['basis']
+    if bkind == 'cellsub':
+        sub = np.array(sorted({int(q) % m.nelements for q in picks}), dtype=np.int32)
+        B = lambda mm, ee, intorder: CellBasis(mm, ee, intorder=intorder, elements=sub)                       # noqa
+    elif bkind == 'facetsub':
+        bf_ = m.boundary_facets()
+        sub = np.array(sorted({int(bf_[int(q) % len(bf_)]) for q in picks}), dtype=np.int32)
+        B = lambda mm, ee, intorder: FacetBasis(mm, ee, intorder=intorder, facets=sub)                        # noqa
+    elif bkind in ('interior0', 'interior1'):
+        if not np.any(m.f2t[1] != -1):
+            raise Reject()
+        B = lambda mm, ee, intorder: InteriorFacetBasis(mm, ee, intorder=intorder, side=int(bkind[-1]))          # noqa
+    else:
+        B = CellBasis if bkind == 'cell' else FacetBasis
     basis = B(m, e, intorder=io)
     lab = ge.label(eld)
     sig = dict(wrapper=eld['cls'], basis=c['basis'])
